@@ -32,35 +32,43 @@ Section Spec.
   Definition all_states (x : nat) : list nat := seq 0 (card x).
   Definition Nj (x : nat) (ps : list nat) (j : list nat) : nat := nsum (all_states x) (N x ps j).
 
+  (* sum over a list L of parent configurations of  Hf(N_j) + sum_{k in S} hf(N_j, N_jk) *)
+  Definition cellsum (L : list (list nat)) (S : list nat) (cs : list nat -> nat)
+    (Hf : nat -> list (Qc * atom)) (hf : nat -> nat -> list (Qc * atom)) (x : nat) (ps : list nat)
+    : list (Qc * atom) :=
+    fsumof L (fun j => Hf (cs j) ++ fsumof S (fun k => hf (cs j) (N x ps j k))).
+
+  (* lnG(r) - lnG(N_j + r)  ;  lnG(N_jk + 1) *)
+  Definition k2_H (r : Qc) (nj : nat) := fatom 1 LG r ++ fneg (fatom 1 LG (Qn nj + r)).
+  Definition k2_h (nj n : nat) := fatom 1 LG (Qn n + 1).
   Definition k2_spec (x : nat) (ps : list nat) : list (Qc * atom) :=
-    let r := Qn (card x) in
-    fsumof (all_cfgs ps) (fun j =>
-      fatom 1 LG r ++ fneg (fatom 1 LG (Qn (Nj x ps j) + r))
-      ++ fsumof (all_states x) (fun k => fatom 1 LG (Qn (N x ps j k) + 1))).
+    cellsum (all_cfgs ps) (all_states x) (Nj x ps) (k2_H (Qn (card x))) k2_h x ps.
 
-  Definition bd_cfg (alpha beta : Qc) (x : nat) (ps : list nat) (j : list nat) : list (Qc * atom) :=
-    fatom 1 LG alpha ++ fneg (fatom 1 LG (Qn (Nj x ps j) + alpha))
-    ++ fsumof (all_states x) (fun k => fatom 1 LG (Qn (N x ps j k) + beta) ++ fneg (fatom 1 LG beta)).
-
+  (* lnG(a) - lnG(N_j + a)  ;  lnG(N_jk + b) - lnG(b) *)
+  Definition bd_H (alpha : Qc) (nj : nat) := fatom 1 LG alpha ++ fneg (fatom 1 LG (Qn nj + alpha)).
+  Definition bd_h (beta : Qc) (nj n : nat) := fatom 1 LG (Qn n + beta) ++ fneg (fatom 1 LG beta).
   Definition bdeu_spec (ess : Qc) (x : nat) (ps : list nat) : list (Qc * atom) :=
     let r := Qn (card x) in
     let q := Qn (length (all_cfgs ps)) in
-    fsumof (all_cfgs ps) (bd_cfg (ess / q) (ess / (q * r)) x ps).
+    cellsum (all_cfgs ps) (all_states x) (Nj x ps) (bd_H (ess / q)) (bd_h (ess / (q * r))) x ps.
 
+  (* Scutari 2016: only the configurations that occur; q~ = how many occur *)
   Definition seen_cfgs (x : nat) (ps : list nat) : list (list nat) :=
     filter (fun j => (0 <? Nj x ps j)%nat) (all_cfgs ps).
   Definition bds_spec (ess : Qc) (x : nat) (ps : list nat) : list (Qc * atom) :=
     let r := Qn (card x) in
     let qt := Qn (length (seen_cfgs x ps)) in
-    fsumof (seen_cfgs x ps) (bd_cfg (ess / qt) (ess / (r * qt)) x ps).
+    cellsum (seen_cfgs x ps) (all_states x) (Nj x ps) (bd_H (ess / qt)) (bd_h (ess / (qt * r))) x ps.
 
+  (* N_jk (ln N_jk - ln N_j) where N_jk > 0 *)
+  Definition ll_h (nj n : nat) : list (Qc * atom) :=
+    if (0 <? n)%nat then fatom (Qn n) LN (Qn n) ++ fneg (fatom (Qn n) LN (Qn nj)) else [].
   Definition ll_spec (x : nat) (ps : list nat) : list (Qc * atom) :=
-    fsumof (all_cfgs ps) (fun j => fsumof (all_states x) (fun k =>
-      let n := N x ps j k in
-      if (0 <? n)%nat then fatom (Qn n) LN (Qn n) ++ fneg (fatom (Qn n) LN (Qn (Nj x ps j))) else [])).
+    cellsum (all_cfgs ps) (all_states x) (Nj x ps) (fun _ => []) ll_h x ps.
+  (* number of free parameters q (r - 1) *)
   Definition nparams (x : nat) (ps : list nat) : Qc := Qn (length (all_cfgs ps)) * (Qn (card x) - 1).
   Definition bic_spec (x : nat) (ps : list nat) : list (Qc * atom) :=
-    ll_spec x ps ++ fneg (fatom (nparams x ps / Q2Qc 2) LN (Qn (length d))).
+    ll_spec x ps ++ fneg (fatom (Q2Qc (1 # 2) * nparams x ps) LN (Qn (length d))).
   Definition aic_spec (x : nat) (ps : list nat) : list (Qc * atom) :=
     ll_spec x ps ++ fneg (fconst (nparams x ps)).
 
@@ -102,8 +110,15 @@ Definition crev_step (g h : list (nat * nat)) : Prop :=
 (* Markov equivalence (Verma & Pearl): same skeleton and same v-structures *)
 Definition vstruct (g : list (nat * nat)) (a c b : nat) : bool :=
   has_edge g a c && has_edge g b c && negb (adj g a b) && negb (Nat.eqb a b).
-Definition mequiv (n : nat) (g h : list (nat * nat)) : bool :=
+(* the table of adjacencies followed by the table of v-structures, over nodes 0..n-1 *)
+Definition msig (n : nat) (g : list (nat * nat)) : list bool :=
   let ns := seq 0 n in
-  forallb (fun u => forallb (fun v => Bool.eqb (adj g u v) (adj h u v)) ns) ns
-  && forallb (fun a => forallb (fun c => forallb (fun b =>
-       Bool.eqb (vstruct g a c b) (vstruct h a c b)) ns) ns) ns.
+  flat_map (fun u => map (fun v => adj g u v) ns) ns
+  ++ flat_map (fun a => flat_map (fun c => map (fun b => vstruct g a c b) ns) ns) ns.
+Fixpoint bools_eqb (a b : list bool) : bool :=
+  match a, b with
+  | [], [] => true
+  | x :: a', y :: b' => Bool.eqb x y && bools_eqb a' b'
+  | _, _ => false
+  end.
+Definition mequiv (n : nat) (g h : list (nat * nat)) : bool := bools_eqb (msig n g) (msig n h).
